@@ -11,7 +11,7 @@ from pv.engine2 import Verifier, Outcome
 from pv.evalx import from_py
 from pv.source import BindingError
 from pv.state import State
-from pv.values import (V, VInt, VBool, VStr, VNONE, VNoneT, VTuple, VRef, VList, VOpt, VPy, VFn, VAny,
+from pv.values import (VMap, V, VInt, VBool, VStr, VNONE, VNoneT, VTuple, VRef, VList, VOpt, VPy, VFn, VAny,
                        OutOfSubset, fresh, fresh_name, kind_of, I, B, S)
 
 
@@ -35,6 +35,8 @@ def value_kind(v):
         return None
     if isinstance(v, VAny):
         return 'any'
+    if isinstance(v, VMap):
+        return 'map:%s:%s' % (v.kk, v.vk)
     return None
 
 
@@ -124,8 +126,35 @@ class FnVerifier(Verifier):
             elif n in self._loop_var_kinds:
                 st.env[n] = fresh(self._loop_var_kinds[n], n)
         flds, alloc = self.written_heap(body)
+        frame = self._loop_frame
+        framed = None
+        if frame is not None and flds & {'$len', '$elR', '$elS'}:
+            # only the listed list objects may change: every other list keeps length and elements
+            refs = []
+            for ex in frame:
+                v, _ = self.spec_value(st, ex)
+                refs.append(v.t)
+            framed = {}
+            for f in ('$len', '$elR', '$elS'):
+                old = st.heap.get(f)
+                if old is None:
+                    old = self.init_heap.get(f)
+                if old is not None:
+                    framed[f] = old
+            flds = flds - {'$len', '$elR', '$elS'}
         for f in sorted(flds):
             self.havoc_field(st, f)
+        if framed is not None:
+            l = z3.Int(fresh_name('l'))
+            for f, old in framed.items():
+                new = z3.Const(fresh_name('H_' + f), old.sort())
+                st.heap[f] = new
+                keep = z3.And([l != r for r in refs]) if refs else z3.BoolVal(True)
+                st.pc.append(z3.ForAll([l], z3.Implies(keep, z3.Select(new, l) == z3.Select(old, l)),
+                                       patterns=[z3.Select(new, l)]))
+        if '$len' in st.heap:
+            l = z3.Int(fresh_name('l'))
+            st.pc.append(z3.ForAll([l], z3.Select(st.heap['$len'], l) >= 0, patterns=[z3.Select(st.heap['$len'], l)]))
         if alloc:
             old = st.arr('$alloc', z3.ArraySort(I, B))
             new = z3.Const(fresh_name('H_alloc'), old.sort())
@@ -135,6 +164,7 @@ class FnVerifier(Verifier):
         st.nyield = z3.Int(fresh_name('nyield'))
 
     _loop_var_kinds = {}
+    _loop_frame = None
 
     def check_invs(self, st, k, sp, tag, body_entry=None):
         for j, inv in enumerate(sp.get('invariant', [])):
@@ -169,6 +199,7 @@ class FnVerifier(Verifier):
     def run_loop(self, st, node, k, sp, guard_fn, pre_body, body, orelse, extra_names=(), post_havoc=None):
         outs = []
         self._loop_var_kinds = dict(sp.get('vars', {}))
+        self._loop_frame = sp.get('lists_modified')
         self.check_invs(st, k, sp, 'init')
         h = st
         self.havoc_loop(h, body, extra_names)
@@ -322,6 +353,9 @@ class FnVerifier(Verifier):
         for n, v in list(st.env.items()) + list(self.closure_env.items()):
             if isinstance(v, (VRef, VList)):
                 st.pc.append(z3.Or(v.t <= 0, st.is_alloc(v.t)))
+        l_ = z3.Int('l!len')
+        ln0 = st.arr('$len', z3.ArraySort(I, I))
+        st.pc.append(z3.ForAll([l_], z3.Select(ln0, l_) >= 0, patterns=[z3.Select(ln0, l_)]))
         for th in ctr.theories:
             fn = THEORIES.get(th)
             if fn is None:
